@@ -413,6 +413,47 @@ pub fn directed() -> Vec<Request> {
             }
         }
     }
+    // size extremes: very long identifiers and literals, long lists of short ones
+    {
+        use crate::gen::ident_text;
+        let l600a = format!("A{}", ident_text("@long600"));
+        let l600b = format!("B{}", ident_text("@long600"));
+        let l1100 = ident_text("@long1100");
+        let l5000 = ident_text("@long5000");
+        let many_defaults: Vec<String> = (0..120).map(|i| format!("#[default] Variant{i:03}")).collect();
+        let many_traits: Vec<String> = (0..200).map(|i| format!("Unknown{i}")).collect();
+        let long_lit = "x".repeat(3000);
+        let extremes: Vec<(&str, String, String)> = vec![
+            ("attr", "Default".into(), format!("enum X {{ #[default] {l600a}, #[default] {l600b} }}")),
+            ("attr", "Default".into(), format!("enum X {{ {} }}", many_defaults.join(", "))),
+            ("derive", "".into(), format!("#[derive_ex(Default)] enum X {{ #[default] {l600a}, #[default] {l600b}, C }}")),
+            ("attr", "Add".into(), format!("impl {l1100} for X {{ type Output = X; }}")),
+            ("attr", "Add".into(), format!("impl {l1100}Assign for X {{ }}")),
+            ("attr", l1100.clone(), "struct X;".into()),
+            ("attr", format!("Clone, {l5000}"), "struct X;".into()),
+            ("attr", many_traits.join(", "), "struct X;".into()),
+            ("attr", "Deref".into(), format!("struct {l1100}(u8, u8);")),
+            ("attr", "Add".into(), format!("enum {l1100} {{ A }}")),
+            ("attr", TRAITS.join(", "), format!("struct {l1100}<{l600a}> {{ {l600b}: {l600a}, r#type: u8 }}")),
+            ("attr", "Clone, Debug, PartialOrd, PartialEq, Hash, Default".into(), format!("enum {l1100} {{ {l600a} {{ {l600b}: u8 }}, #[default] B }}")),
+            ("attr", "Default".into(), format!("struct X(#[default(\"{long_lit}\")] String);")),
+            ("attr", "Ord, PartialOrd, Eq, PartialEq".into(), format!("struct X(#[ord(key = $.{l1100})] u8, #[ord({l1100})] u8);")),
+            ("attr", "Ord".into(), format!("struct X(#[ord(key = $.0, by = {l1100}, {l1100} = 1)] u8);")),
+            ("attr", "Debug".into(), format!("struct X(#[debug({l1100})] u8);")),
+            ("attr", "Default".into(), format!("enum X {{ #[default({l1100})] A, B }}")),
+            ("attr", format!("Clone(bound({l1100}: {l1100}))"), "struct X<T>(T);".into()),
+            ("attr", format!("Clone({l1100})"), "struct X<T>(T);".into()),
+            ("attr", format!("Add, {l1100}"), "impl Add for X { type Output = X; }".into()),
+            ("attr", "Sub".into(), "impl Add for X { type Output = X; }".into()),
+        ];
+        for (mode, attr, item) in extremes {
+            out.push(Request {
+                mode: if mode == "attr" { Mode::Attr } else { Mode::Derive },
+                attr,
+                item,
+            });
+        }
+    }
     // normalise to the printed token form and drop what is not a valid request
     let mut res = Vec::new();
     let mut seen = std::collections::BTreeSet::new();
